@@ -104,6 +104,40 @@ fn dgcons(sid: u64, payload: &[u8], pattern: &[u64]) -> Value {
     json!({"steps": steps, "final_rem": e.remaining(), "final_chunk": jbytes(e.chunk())})
 }
 
+// ---------------------------------------------------------------- C14: a DATA frame whose payload buffer is not contiguous
+/// `WriteBuf` (what h3 hands to the transport) for `Frame::Data(a.chain(b))`, drained with the given advance pattern and then
+/// to the end; reports what `remaining()` said first and every byte that came out.
+fn wbuf(a: &[u8], b: &[u8], pattern: &[u64]) -> Value {
+    use bytes::Bytes;
+    let payload = Bytes::copy_from_slice(a).chain(Bytes::copy_from_slice(b));
+    let mut w: h3::quic::WriteBuf<bytes::buf::Chain<Bytes, Bytes>> = h3::proto::frame::Frame::Data(payload).into();
+    let first_rem = w.remaining();
+    let mut out: Vec<u8> = vec![];
+    let mut take = |w: &mut h3::quic::WriteBuf<bytes::buf::Chain<Bytes, Bytes>>, want: usize, out: &mut Vec<u8>| -> bool {
+        let c = w.chunk();
+        if c.is_empty() {
+            return false;
+        }
+        let n = want.min(c.len()).max(1);
+        out.extend_from_slice(&c[..n]);
+        w.advance(n);
+        true
+    };
+    for p in pattern {
+        if !take(&mut w, *p as usize, &mut out) {
+            break;
+        }
+    }
+    let mut guard = 0;
+    while w.has_remaining() && guard < 100000 {
+        if !take(&mut w, usize::MAX, &mut out) {
+            break;
+        }
+        guard += 1;
+    }
+    json!({"remaining": first_rem, "bytes": jbytes(&out), "left": w.remaining()})
+}
+
 // ---------------------------------------------------------------- C02: frame segmentation through FrameStream
 pub fn code_of_name(n: &str) -> i64 {
     match n {
@@ -391,6 +425,7 @@ pub fn exec(v: &Value) -> Value {
         "ienc" => ienc(v["size"].as_u64().unwrap_or(8) as u8, v["flags"].as_u64().unwrap_or(0) as u8, u64_of(&v["in"])),
         "qenc" => qenc(&v["in"]),
         "qdec" => qdec(&bytes_of(&v["in"]), v.get("max").map(u64_of).unwrap_or(u64::MAX >> 2)),
+        "wbuf" => wbuf(&bytes_of(&v["a"]), &bytes_of(&v["b"]), &v["pattern"].as_array().map(|a| a.iter().map(|x| x.as_u64().unwrap_or(0)).collect::<Vec<_>>()).unwrap_or_default()),
         "dgenc" => dgenc(u64_of(&v["sid"]), &bytes_of(&v["payload"])),
         "dgdec" => dgdec(&bytes_of(&v["in"])),
         "dgcons" => dgcons(u64_of(&v["sid"]), &bytes_of(&v["payload"]), &v["pattern"].as_array().map(|a| a.iter().map(|x| x.as_u64().unwrap_or(0)).collect::<Vec<_>>()).unwrap_or_default()),
